@@ -14,10 +14,12 @@ from vf.harness.c09 import _extra_fieldset
 KINDS = ['required_value_missing', 'different_field_sets', 'identifier_missing_in_identified_store', 'identifier_given_in_unidentified_store']
 
 
-def bad_traj(kind, tag, identified):
+def bad_traj(kind, tag, identified, with_id=None):
     ST, FS, TR = S.mods()
     if kind == 'required_value_missing':
-        t = S.make_traj(tag, flight_id=(500 + tag) if identified else None)
+        # the rejected trajectory may use identifiers like the store does or the other way round (two reasons to refuse
+        # it, or - as the first addition of a new store - a trajectory that must not decide the kind of the store)
+        t = S.make_traj(tag, flight_id=(500 + tag) if (identified if with_id is None else with_id) else None)
         t._data['starting_mass'] = None            # a required per-trajectory value was never set
         return t
     if kind == 'different_field_sets':
@@ -38,8 +40,9 @@ def reject_path(n_adds, backend_kind='fake'):
         kind = choose('rejection_kind', kinds)
         pos = choose('position_of_rejected_add', list(range(0, n_adds + 1)))
         session = choose('session', ['create', 'append', 'in_memory'])
+        with_id = choose('rejected_trajectory_carries_identifier', [True, False]) if kind == 'required_value_missing' else None
         problems = []
-        layout = dict(identified=identified, kind=kind, position=pos, session=session)
+        layout = dict(identified=identified, kind=kind, position=pos, session=session, rejected_with_identifier=with_id)
         if pos == 0 and kind in ('identifier_missing_in_identified_store', 'identifier_given_in_unidentified_store', 'different_field_sets') and session != 'append':
             # the first trajectory of a new store decides its kind: nothing to reject against
             return dict(problems=[], layout=layout, trivial=True)
@@ -57,7 +60,7 @@ def reject_path(n_adds, backend_kind='fake'):
                 for step in range(n_adds + 1):
                     if step == pos:
                         try:
-                            ts.add(bad_traj(kind, 77, identified))
+                            ts.add(bad_traj(kind, 77, identified, with_id))
                             problems.append(f'{kind}: the addition was accepted')
                             model.append(77)
                         except (ValueError, TypeError) as e:
